@@ -16,8 +16,8 @@ from . import render_common as RC
 from .common import Violation, run_children
 
 PROP = "C08"
-LEAN_TARGETS = ["Props.C08", "Proofs.RenderTab", "driver"]
-AUDIT_IMPORTS = ["Props.C08", "Proofs.RenderTab"]
+LEAN_TARGETS = ["Props.C08", "Proofs.RenderTab", "Proofs.GenScene", "driver"]
+AUDIT_IMPORTS = ["Props.C08", "Proofs.RenderTab", "Proofs.GenScene"]
 NS = "Pysersic.Props.C08."
 OBLIGATIONS = [NS + t for t in [
     "sersic2d_flux_smul", "gaussPixel_scale", "gaussFourier_scale", "pointFourier_flux_smul",
@@ -26,7 +26,10 @@ OBLIGATIONS = [NS + t for t in [
     "exp_is_sersic_n1", "dev_is_sersic_n4", "repo_profile_types", "profileOf_flux_smul", "profile_flux_smul",
     "image_flux_smul", "zero_flux_zero", "renderForModel_eq_sum",
 ]] + ["Pysersic.Render.combineScene_add", "Pysersic.Render.combineScene_smul", "Pysersic.Render.combineScene_zero",
-     "Pysersic.Render.sceneArr_eq", "Pysersic.Render.tabI_get", "Pysersic.Render.tabF_get"]
+     "Pysersic.Render.sceneArr_eq", "Pysersic.Render.tabI_get", "Pysersic.Render.tabF_get"] + [
+    # BaseRenderer's scene plumbing as TRANSLATED from the source on this run (Gen/Scene.lean, tools/translate_scene.py) is the model's
+    "Pysersic.Proofs.GenScene." + t for t in ["gen_exp_eq", "gen_dev_eq", "gen_doublesersic_eq", "gen_sersic_exp_eq", "gen_sersic_pointsource_eq",
+                                              "gen_combine_eq", "gen_for_model_eq", "gen_render_for_model_image"]]
 # kernels whose translated source text (Gen/Kernels.lean) is proved equal to the model kernel this property's theorems are about
 GEN_KERNELS = ["render_sersic_2d", "render_gaussian_pixel_term", "render_gaussian_fourier_term", "render_pointsource_fourier", "sersic1D_cx"]
 MIRRORED_FILES = ["pysersic/rendering.py"]
